@@ -86,7 +86,43 @@ func setBag(s *slip.Scope, obj *flavors.Instance, value, path slip.Object, depth
 	if x == nil {
 		obj.Any = v
 	} else {
-		x.MustSet(obj.Any, v)
+		setAt(s, obj, x, v, depth)
+	}
+}
+
+// setAt sets value at the path x of the bag. jp.Expr.MustSet silently does
+// nothing when the data is nil or when a step of the path meets something it
+// can not enter (a key applied to an array, an index applied to a map, any
+// step applied to a number or string). An empty bag gets the container the
+// first step of the path asks for and a path of keys and indices that still
+// does not lead to the value afterwards is an error.
+func setAt(s *slip.Scope, obj *flavors.Instance, x jp.Expr, value any, depth int) {
+	simple := true
+	for _, f := range x {
+		switch f.(type) {
+		case jp.Root, jp.Child, jp.Nth:
+		default:
+			simple = false
+		}
+	}
+	if obj.Any == nil {
+		for _, f := range x {
+			switch tf := f.(type) {
+			case jp.Root:
+				continue
+			case jp.Child:
+				obj.Any = map[string]any{}
+			case jp.Nth:
+				if 0 <= tf {
+					obj.Any = make([]any, int(tf)+1)
+				}
+			}
+			break
+		}
+	}
+	x.MustSet(obj.Any, value)
+	if simple && !x.Has(obj.Any) {
+		slip.ErrorPanic(s, depth, "can not set a value at %s", x)
 	}
 }
 
